@@ -4,16 +4,22 @@
 R=${1:-/repo}
 D=$(mktemp -d /tmp/suite.XXXXXX)
 cd "$R" || exit 2
+PYTHONPATH="$R/src" /venv/bin/python -c "from scenic.syntax import buildParser; r=buildParser(); raise SystemExit(r.returncode)" || { echo "parser generation failed"; exit 2; }
 find tests -name 'test_*.py' | sort > $D/files
 cat $D/files | PYTHONPATH="$R/src" xargs -P 14 -I{} sh -c \
-  'f={}; o='$D'/$(echo $f | tr / _).xml; /venv/bin/python -m pytest -q -p no:cacheprovider --timeout=900 --continue-on-collection-errors --junitxml=$o $f >$o.log 2>&1'
+  'f={}; o='$D'/$(echo $f | tr / _).xml; /venv/bin/python -m pytest -q -p no:cacheprovider --timeout=900 --continue-on-collection-errors --skip-pegen --junitxml=$o $f >$o.log 2>&1'
 /venv/bin/python - $D <<'PY'
 import json, sys, glob, xml.etree.ElementTree as ET
-base = set(json.load(open('/root/.vp/BASELINE.json'))['stable_pass'])
+import re
+def norm(n):
+    m = re.match(r"(.*test_region_combinations)\[(\w+)-(\w+)\]$", n)
+    if m: return m.group(1) + "[" + "-".join(sorted(m.group(2,3))) + "]"
+    return n
+base = set(norm(x) for x in json.load(open('/root/.vp/BASELINE.json'))['stable_pass'])
 passed=set(); bad=set()
 for f in glob.glob(sys.argv[1]+'/*.xml'):
     for tc in ET.parse(f).iter('testcase'):
-        name = tc.get('classname') + '::' + tc.get('name')
+        name = norm(tc.get('classname') + '::' + tc.get('name'))
         if any(c.tag in ('failure','error') for c in tc): bad.add(name)
         elif any(c.tag=='skipped' for c in tc): pass
         else: passed.add(name)
@@ -22,4 +28,4 @@ print(f"baseline stable_pass={len(base)} passed_now={len(passed & base)} missing
 for m in missing[:30]: print("  NOT PASSING:", m)
 sys.exit(1 if missing else 0)
 PY
-rc=$?; rm -rf $D; exit $rc
+rc=$?; if [ -n "$KEEP" ]; then echo "logs in $D"; else rm -rf $D; fi; exit $rc
